@@ -343,6 +343,8 @@ def part_widening(ctx, cfgs):
     n = 0
     for (cfg, _), res in zip(jobs, results):
         n += res["n"]
+        if res.get("skipped"):
+            ctx.corr["widening_skipped_capacity"] = ctx.corr.get("widening_skipped_capacity", 0) + len(res["skipped"])
         if res["error"]:
             report(ctx, "correspondence-broken", f"widening harness could not run: {res['error'][:200]}",
                    {"config": cfg.name, "error": res["error"]}, "widen-harness-error")
